@@ -73,16 +73,17 @@ type BaseStore struct {
 	messageMarshaler iface.MessageMarshaler
 	directChannel    iface.DirectChannel
 
-	muCache      sync.RWMutex
-	muIndex      sync.RWMutex
-	muJoining    sync.Mutex
-	muLocalHeads sync.Mutex
-	sortFn       ipfslog.SortFn
-	logger       *zap.Logger
-	tracer       trace.Tracer
-	ctx          context.Context
-	cancel       context.CancelFunc
-	closeFunc    func()
+	muCache             sync.RWMutex
+	muIndex             sync.RWMutex
+	muJoining           sync.Mutex
+	muLocalHeads        sync.Mutex
+	muReplicationStatus sync.Mutex
+	sortFn              ipfslog.SortFn
+	logger              *zap.Logger
+	tracer              trace.Tracer
+	ctx                 context.Context
+	cancel              context.CancelFunc
+	closeFunc           func()
 
 	// Deprecated: if possible don't use this, use EventBus() directly instead
 	events.EventEmitter
@@ -917,21 +918,10 @@ func (b *BaseStore) AddOperation(ctx context.Context, op operation.Operation, on
 	return e, nil
 }
 
-func (b *BaseStore) recalculateReplicationProgress() {
-	max := b.ReplicationStatus().GetMax()
-	if progress := b.ReplicationStatus().GetProgress() + 1; progress < max {
-		max = progress
-	}
-	if opLogLen := b.OpLog().Len(); opLogLen > max {
-		max = opLogLen
-
-	}
-
-	b.ReplicationStatus().SetProgress(max)
-}
-
-func (b *BaseStore) recalculateReplicationMax(max int) {
-	if opLogLen := b.OpLog().Len(); opLogLen > max {
+// replicationMaxLocked raises the maximum to the largest of the announced clock, the log
+// length and the previous maximum. muReplicationStatus must be held.
+func (b *BaseStore) replicationMaxLocked(max int, opLogLen int) int {
+	if opLogLen > max {
 		max = opLogLen
 	}
 
@@ -940,11 +930,36 @@ func (b *BaseStore) recalculateReplicationMax(max int) {
 	}
 
 	b.ReplicationStatus().SetMax(max)
+
+	return max
 }
 
+func (b *BaseStore) recalculateReplicationMax(max int) {
+	b.muReplicationStatus.Lock()
+	defer b.muReplicationStatus.Unlock()
+
+	b.replicationMaxLocked(max, b.OpLog().Len())
+}
+
+// recalculateReplicationStatus is called from the writers, the store's main loop and the
+// load progress goroutine: maximum and progress are updated together, from one reading of
+// the log length, so that progress can never end up above the maximum
 func (b *BaseStore) recalculateReplicationStatus(maxTotal int) {
-	b.recalculateReplicationMax(maxTotal)
-	b.recalculateReplicationProgress()
+	b.muReplicationStatus.Lock()
+	defer b.muReplicationStatus.Unlock()
+
+	opLogLen := b.OpLog().Len()
+	max := b.replicationMaxLocked(maxTotal, opLogLen)
+
+	if progress := b.ReplicationStatus().GetProgress() + 1; progress < max {
+		max = progress
+	}
+
+	if opLogLen > max {
+		max = opLogLen
+	}
+
+	b.ReplicationStatus().SetProgress(max)
 }
 
 func (b *BaseStore) updateIndex(ctx context.Context) error {
